@@ -15,7 +15,7 @@ use crate::probe::Probe;
 use crate::statejson::{self, oshape_from_spec, Params, ShapeSpec, StateSpec};
 
 pub const TITLE: &str = "A scored hard packing has no overlapping shapes anywhere in the tiling";
-pub const RULE: &str = "cases = one cell (group, shape, length, ratio, angle) with a vector of sites (x, y, orientation); every (cell, site) is one evaluation. Families: uniform (cell from a target packing fraction 0.3..1.05, sites from the bound-heavy mixture); thin (cell height b sin(t) drawn in [0.4,2.2] enclosing radii, ratio and angle from mixtures, sites within 0.02 of a cell face half of the time); contact (a thin-family state whose cell length or site coordinate is bisected until the closest image at lattice index >= 2 overlaps by 1.6e-9..0.3); histories (a Probe around real states run through the real optimiser with 1..12 inner loops, every score() call that returned Some is judged). Oracle: for every state with score()==Some, all image pairs with centre distance < 2R found by solving the lattice inequalities (no shell constant), separating-axis / disc-distance signed gap; violation iff some pair penetrates by more than 1e-9. Non-trivial = score is Some and (an image at lattice index >= 2 lies within 2R of a copy, or the smallest gap is below 0.05 R). Distinct by hash of the state's numbers. Also counted: rejected states whose only true overlaps are at index >= 2 (the ones a too-small shell count would accept).";
+pub const RULE: &str = "cases = one cell (group, shape, length, ratio, angle) with a vector of sites (x, y, orientation); every (cell, site) is one evaluation. Families: uniform (cell from a target packing fraction 0.3..1.05, sites from the bound-heavy mixture); thin (cell height b sin(t) drawn in [0.4,2.2] enclosing radii, ratio and angle from mixtures, sites within 0.02 of a cell face half of the time); contact (a thin-family state whose cell length or site coordinate is bisected until the closest image at lattice index >= 2 overlaps by 1.6e-9..0.3); aligned-contact (p2, a copy within 1e-12..1e-2 of a cell face, its two-fold partner's image two rows away placed in line with it within 0 or 1e-12..1e-2 of a cell, skewed thin cells; the cell length bisected until exactly that image overlaps by 1.6e-9..1e-5); histories (a Probe around real states run through the real optimiser with 1..12 inner loops, every score() call that returned Some is judged). Oracle: for every state with score()==Some, all image pairs with centre distance < 2R found by solving the lattice inequalities (no shell constant), separating-axis / disc-distance signed gap; violation iff some pair penetrates by more than 1e-9. Non-trivial = score is Some and (an image at lattice index >= 2 lies within 2R of a copy, or the smallest gap is below 0.05 R). Distinct by hash of the state's numbers. Also counted: rejected states whose only true overlaps are at index >= 2 (the ones a too-small shell count would accept).";
 
 pub fn assumptions() -> Vec<&'static str> {
     vec![
@@ -38,6 +38,7 @@ pub struct TilingCase {
 fn face_coord() -> BoxedStrategy<f64> {
     prop_oneof![
         3 => (0.0..0.02f64, any::<bool>()).prop_map(|(e, neg)| if neg { -0.5 + e } else { 0.5 - e }),
+        2 => (-12.0..-1.7f64, any::<bool>()).prop_map(|(e, neg)| if neg { -0.5 + 10f64.powf(e) } else { 0.5 - 10f64.powf(e) }),
         1 => Just(0.5),
         1 => Just(-0.5),
         3 => -0.5..=0.5f64,
@@ -356,6 +357,103 @@ fn contact_oracle(c: &ContactCase, rec: &Rec, ctx: &Ctx) -> Result<(), String> {
 }
 
 // ------------------------------------------------------------------------------------------------
+// aligned contact: in a group with a two-fold axis, a copy just inside one cell face and its partner just inside the
+// opposite face, the partner's image two rows away placed directly in line with the copy (the skew of the cell
+// carries the nearer rows aside), and the cell length bisected until exactly that image overlaps by a depth just
+// above the tolerance. Here the number of rows that have to be searched is decided by the last digits.
+
+#[derive(Clone, Debug, Serialize, Deserialize)]
+pub struct AlignedCase {
+    pub group: usize,
+    pub shape: ShapeSpec,
+    pub theta: f64,
+    pub ratio: f64,
+    pub n_align: i32,
+    pub xi_exp: f64,
+    pub xi_neg: bool,
+    pub zeta_exp: f64,
+    pub top: bool,
+    pub delta_exp: f64,
+    pub phi: f64,
+}
+
+fn aligned_strat() -> BoxedStrategy<AlignedCase> {
+    (
+        prop_oneof![Just(1usize)],
+        prop_oneof![3 => Just(ShapeSpec::Circle), 1 => any_shape()],
+        (PI / 6.)..0.8f64,
+        0.1..0.45f64,
+        -1i32..=2,
+        prop_oneof![2 => -12.0..-2.0f64, 1 => Just(-300.0)],
+        any::<bool>(),
+        -12.0..-2.0f64,
+        any::<bool>(),
+        -8.8..-5.0f64,
+        mixf(0., 2. * PI, vec![0., PI]),
+    )
+        .prop_map(|(group, shape, theta, ratio, n_align, xi_exp, xi_neg, zeta_exp, top, delta_exp, phi)| AlignedCase { group, shape, theta, ratio, n_align, xi_exp, xi_neg, zeta_exp, top, delta_exp, phi })
+        .boxed()
+}
+
+fn aligned_oracle(c: &AlignedCase, rec: &Rec, ctx: &Ctx) -> Result<(), String> {
+    let mut tmpl = HardTmpl::new(c.group, &c.shape)?;
+    let os = tmpl.oshape().clone();
+    if !oshape_usable(&os) {
+        rec.class("skipped-unusable-shape");
+        return Ok(());
+    }
+    let r = os.enclosing_radius();
+    // fractional x that puts the image two rows away of the two-fold partner in line with the copy
+    // the partner (-x, -y) sits just inside the opposite face, so its image with lattice index m = -+2 is
+    // (1 + 2 zeta) rows away from the copy; in line with it when -2x + n -+ (1 + 2 zeta) beta = 0
+    let beta = c.ratio * c.theta.cos();
+    let zeta = 10f64.powf(c.zeta_exp);
+    let rows = if c.top { 1. + 2. * zeta } else { -(1. + 2. * zeta) };
+    let xi = if c.xi_exp < -100. { 0. } else if c.xi_neg { -(10f64.powf(c.xi_exp)) } else { 10f64.powf(c.xi_exp) };
+    let mut x = (c.n_align as f64 + rows * beta) / 2. + xi;
+    x = x - (x + 0.5).floor();
+    let y = if c.top { 0.5 - zeta } else { -0.5 + zeta };
+    let target = -(10f64.powf(c.delta_exp));
+    let params = |length: f64| Params { length, ratio: c.ratio, angle: c.theta, x, y, phi: c.phi };
+    // cell height between 1.5 R and 2.5 R
+    let len_of_h = |h: f64| h / (c.ratio * c.theta.sin());
+    let (mut lo, mut hi) = (len_of_h(1.5 * r), len_of_h(2.6 * r));
+    let f = |l: f64| far_gap(&os, c.group, &params(l)) - target;
+    if !(f(lo) < 0. && f(hi) > 0.) {
+        rec.class("aligned/no-bracket");
+        return Ok(());
+    }
+    for _ in 0..80 {
+        let mid = 0.5 * (lo + hi);
+        if f(mid) > 0. {
+            hi = mid;
+        } else {
+            lo = mid;
+        }
+    }
+    let p = tmpl.set(&params(lo));
+    let score = tmpl.score();
+    rec.eval(1);
+    match score {
+        Some(_) => {
+            let j = judge_scored(&os, c.group, &p, ctx, rec, "state with a far image in line")?;
+            rec.class(&format!("aligned/{}", j.class));
+        }
+        None => {
+            let class = classify_rejected(&os, c.group, &p);
+            rec.class(&format!("aligned/{}", class));
+            if class == "rejected/only-far-overlap" {
+                rec.nontrivial(hash_f64s(&[c.group as f64, p.length, p.ratio, p.angle, p.x, p.y, p.phi]));
+                if rec.wants_sample("aligned/only-far-overlap") {
+                    rec.sample("aligned/only-far-overlap", || serde_json::json!({"group": geom::GROUP_NAMES[c.group], "shape": c.shape, "params": p, "planted_depth": -target}));
+                }
+            }
+        }
+    }
+    Ok(())
+}
+
+// ------------------------------------------------------------------------------------------------
 // histories: the optimiser is the adversary
 
 #[derive(Clone, Debug, Serialize, Deserialize)]
@@ -506,6 +604,7 @@ pub fn parts() -> Vec<PartDef> {
         part_min("uniform", 40_000, 2_000_000, |_| uniform_strat(256), tiling_oracle, single_site),
         part_min("thin", 200_000, 12_000_000, |_| thin_strat(512), tiling_oracle, single_site),
         part("contact", 60_000, 3_000_000, |_| contact_strat(), contact_oracle),
+        part("aligned-contact", 120_000, 4_000_000, |_| aligned_strat(), aligned_oracle),
         part("histories", 320, 20_000, |_| history_strat(), history_oracle),
     ]
 }
